@@ -349,6 +349,18 @@ theorem btRun_pos (p : ProgR K) {capital : K} {d0 : Nat} {ds : List Nat} {w w' :
   obtain ⟨hf3, hp3⟩ := btLoop_pos p ds hf2 h3 hb
   exact ⟨hf3, fun j => by rw [hp3 j, hp2 j, hp1 j]⟩
 
+/-- **the shadow copy** of a blotter-driven sub-strategy over the clock dates `0 :: ds` (row 0 never again): updated on row 0,
+    the loop body on the others - the positions move as in the stand-alone backtest of the definition -/
+theorem paperLoop_pos (p : ProgR K) {ds : List Nat} {w w' : World K} (hf : Flat w) (hpos : ∀ d ∈ ds, d ≠ 0)
+    (h : paperLoop cfg (progRunR cfg p []) (0 :: ds) w = .ok w') (hb : w'.bankrupt = false) :
+    Flat w' ∧ ∀ j, posAt w' j = posAt w j + daysSum cfg j p.timeline p.rows ds := by
+  rw [P09.paperLoop_zero_cons cfg _ ds w hpos] at h
+  obtain ⟨w2, h2, h3⟩ := bind_eq_ok h
+  have hb2 : w2.bankrupt = false := btLoop_not_bankrupt ds h3 hb
+  obtain ⟨hf2, hp2⟩ := updRoot_pos hf h2 hb2
+  obtain ⟨hf3, hp3⟩ := btLoop_pos p ds hf2 h3 hb
+  exact ⟨hf3, fun j => by rw [hp3 j, hp2 j]⟩
+
 end pos
 
 /-! ### the windows of rows `1..n` partition the rows stamped in `(timeline[0], timeline[n]]` -/
@@ -484,7 +496,7 @@ theorem daysSum_range (j : Nat) (tl : List Int) (hs : tl.Pairwise (· < ·)) (n 
     · rw [if_pos hin, if_pos (by simpa using hin), qsum]
     · rw [if_neg hin, if_neg (by simpa using hin), zero_add]
 
-/-- … with row 0 called too (a shadow copy is stepped on the synthetic row): the rows stamped up to `b` -/
+/-- … if row 0 were called too (what happened to a shadow copy before the repair of `StrategyBase.update`): the rows stamped up to `b` -/
 theorem rowDays_range0 (j : Nat) (tl : List Int) (hs : tl.Pairwise (· < ·)) (n : Nat) (hlen : tl.length = n + 1)
     (a b : Int) (ha : tl[0]? = some a) (hb : tl[n]? = some b) (r : Int × BRow K) :
     rowDays cfg j tl r (List.range' 0 (n + 1)) = if r.1 ≤ b then rowQ cfg j r else 0 := by
